@@ -101,6 +101,52 @@ class Tap:
                 pass
 
 
+def split_candidates(sdp):
+    """-> (text without candidate / end-of-candidates lines, [(mid, candidate line)])"""
+    keep, cands, mid, pending = [], [], None, []
+    for line in sdp.splitlines(True):
+        if line.startswith("m="):
+            mid, pending = None, []
+        if line.startswith("a=mid:"):
+            mid = line[6:].strip()
+            cands.extend((mid, c) for c in pending)
+            pending = []
+        if line.startswith("a=candidate:"):
+            (cands.append((mid, line.strip())) if mid is not None else pending.append(line.strip()))
+            continue
+        if line.startswith("a=end-of-candidates"):
+            continue
+        keep.append(line)
+    return "".join(keep), cands
+
+
+async def negotiate_trickle(offerer, answerer, how, marks):
+    """Trickle-style signalling: descriptions travel without candidates; the candidates follow 0.3 s later ('late') or the
+    remote side never gets round to sending them ('never': ICE keeps waiting for remote candidates)."""
+    from aiortc import RTCSessionDescription
+    from aiortc.sdp import candidate_from_sdp
+
+    o, a = offerer.pc, answerer.pc
+    await o.setLocalDescription(await o.createOffer())
+    off, c_off = split_candidates(o.localDescription.sdp)
+    await a.setRemoteDescription(RTCSessionDescription(sdp=off, type="offer"))
+    await a.setLocalDescription(await a.createAnswer())
+    ans, c_ans = split_candidates(a.localDescription.sdp)
+    await o.setRemoteDescription(RTCSessionDescription(sdp=ans, type="answer"))
+    marks["waiting_for_candidates"] = True
+    if how == "never":
+        await asyncio.sleep(0.5)
+        return
+    await asyncio.sleep(0.3)
+    for pc, cands in ((a, c_off), (o, c_ans)):
+        for mid, line in cands:
+            cand = candidate_from_sdp(line.split(":", 1)[1])
+            cand.sdpMid = mid
+            await pc.addIceCandidate(cand)
+        await pc.addIceCandidate(None)
+    marks["waiting_for_candidates"] = False
+
+
 async def scenario(a, b, cfg, tap, marks):
     """negotiate -> connect -> exchange for a while. Exceptions end the scenario quietly (close() may have been injected)."""
     from vt.rigs.pc import negotiate
@@ -114,7 +160,10 @@ async def scenario(a, b, cfg, tap, marks):
         p.pc.on("track", lambda tr, p=p: tap.attach(p.name, tr, f"track {tr.kind}", ["ended"]))
     try:
         marks["negotiating"] = True
-        await negotiate(a, b)
+        if cfg.get("trickle"):
+            await negotiate_trickle(a, b, cfg["trickle"], marks)
+        else:
+            await negotiate(a, b)
         marks["negotiating"] = False
         t0 = time.monotonic()
         while time.monotonic() - t0 < 3.0:
@@ -356,8 +405,10 @@ def run_case(index, rng, tier):
     out = Batch("C19", "c19", checked_counter="close_runs")
     cfg = restrict_answerer(c19_config(rng))
     mode = MODES[index % len(MODES)]
-    key = config_key(cfg)
-    desc = {"config": repr(key)[:600], "mode": mode}
+    if index % 5 == 3:
+        cfg["trickle"] = "never" if index % 10 == 3 else "late"
+    key = config_key(cfg) + (cfg.get("trickle"),)
+    desc = {"config": repr(key)[:600], "mode": mode, "trickle": cfg.get("trickle")}
     counter = Counter()
 
     def one(fire_at):
